@@ -144,75 +144,76 @@ func (p *Program) NewLabel() Label {
 // Assemble resolves all jump destinations to concrete instructions using the labels.
 // This method takes care of long jumps and resolves them by using early returns or unconditional long jumps.
 func (p *Program) Assemble() ([]bpf.Instruction, error) {
-	for _, jump := range p.jumps {
-		// This is safe since we are only accessing instructions that were inserted as bpf.JumpIf.
-		jumpInst := p.instructions[jump.index].(bpf.JumpIf)
+	// The jumps are resolved from the last to the first one. Only forward jumps are supported, so an
+	// instruction that is inserted directly behind the jump being resolved is located in front of
+	// everything that has been resolved already and does not invalidate any computed offset.
+	for i := len(p.jumps) - 1; i >= 0; i-- {
+		jump := p.jumps[i]
 
-		skip, err := p.resolveLabel(jump, jump.trueLabel)
+		skipTrue, err := p.computeSkipN(jump, jump.trueLabel)
 		if err != nil {
 			return nil, err
 		}
-		jumpInst.SkipTrue = skip
 
-		skip, err = p.resolveLabel(jump, jump.falseLabel)
+		skipFalse, err := p.computeSkipN(jump, jump.falseLabel)
 		if err != nil {
 			return nil, err
 		}
-		jumpInst.SkipFalse = skip
 
-		if jumpInst.SkipTrue == 0 && jumpInst.SkipFalse == 0 {
+		if skipTrue == 0 && skipFalse == 0 {
 			return nil, fmt.Errorf("useless jump found")
 		}
 
+		// BPF does not support long conditional jumps, they need a bridge behind the jump.
+		// A bridge moves the destination of the other branch one instruction further away.
+		bridgeTrue := skipTrue > math.MaxUint8
+		bridgeFalse := skipFalse > math.MaxUint8 || (bridgeTrue && skipFalse == math.MaxUint8)
+		bridgeTrue = bridgeTrue || (bridgeFalse && skipTrue == math.MaxUint8)
+		bridgeFalse = bridgeFalse || (bridgeTrue && skipFalse == math.MaxUint8)
+
+		if bridgeFalse {
+			p.insertBridge(jump, jump.falseLabel)
+			skipFalse = 0
+			skipTrue++
+		}
+		if bridgeTrue {
+			p.insertBridge(jump, jump.trueLabel)
+			skipTrue = 0
+			skipFalse++
+		}
+
+		// This is safe since we are only accessing instructions that were inserted as bpf.JumpIf.
+		jumpInst := p.instructions[jump.index].(bpf.JumpIf)
+		jumpInst.SkipTrue = uint8(skipTrue)
+		jumpInst.SkipFalse = uint8(skipFalse)
 		p.instructions[jump.index] = jumpInst
 	}
 
 	return p.instructions, nil
 }
 
-// resolveLabel resolves the label to a short jump.
-func (p *Program) resolveLabel(jump JumpIf, label Label) (uint8, error) {
-	dest := p.labels[label]
-	skipN := p.computeSkipN(jump, label)
-
-	for skipN < 0 {
-		dest = dest[1:]
-		if len(dest) == 0 {
-			return 0, fmt.Errorf("backward jumps are not supported")
-		}
-		p.labels[label] = dest
-		skipN = p.computeSkipN(jump, label)
+// insertBridge inserts an instruction directly behind the jump that continues at the label.
+// If the jump destination is a return instruction, it is copied as an early return,
+// if not, an unconditional long jump is inserted.
+func (p *Program) insertBridge(jump JumpIf, label Label) {
+	skipN, _ := p.computeSkipN(jump, label)
+	dest := jump.index + 1 + Index(skipN)
+	if long, ok := p.instructions[dest].(bpf.Jump); ok {
+		// The nearest destination is a long jump inserted earlier, continue at its destination.
+		dest += 1 + Index(long.Skip)
 	}
 
-	// BPF does not support long conditional jumps.
-	if skipN > math.MaxUint8 {
-		insertAfter := findInsertAfter(p.jumps, jump)
-
-		// If the jump destination is a return instruction, copy it and add an early return,
-		// if not, insert a long jump.
-		jumpDest := p.instructions[dest[0]]
-		if _, ok := jumpDest.(bpf.RetConstant); !ok {
-			jumpDest = bpf.Jump{Skip: uint32(skipN - int(insertAfter.index))}
-		}
-
-		insertIndex := p.insertAfter(insertAfter.index, jumpDest)
-		p.labels[label] = append([]Index{insertIndex}, dest...)
-		skipN = p.computeSkipN(jump, label)
+	bridge := p.instructions[dest]
+	if _, ok := bridge.(bpf.RetConstant); !ok {
+		// The destination moves by one instruction when the bridge is inserted.
+		bridge = bpf.Jump{Skip: uint32(dest - jump.index - 1)}
 	}
-	return uint8(skipN), nil
-}
 
-// Inserts the instruction after the instruction indicated by index, which must come from p.jumps.
-func (p *Program) insertAfter(index Index, inst bpf.Instruction) Index {
-	// This is safe since we are only accessing instructions that were inserted as bpf.JumpIf.
-	jumpInst := p.instructions[index].(bpf.JumpIf)
-	p.instructions[index] = jumpInst
-
-	index++
+	index := jump.index + 1
 	p.instructions = append(p.instructions[:index+1], p.instructions[index:]...)
-	p.instructions[index] = inst
+	p.instructions[index] = bridge
 	p.updateIndices(index)
-	return index
+	p.labels[label] = append([]Index{index}, p.labels[label]...)
 }
 
 // After inserting a new instruction into the instruction list, the indices are wrong.
@@ -233,26 +234,15 @@ func (p *Program) updateIndices(after Index) {
 	}
 }
 
-// Computes the number of instructions to skip by resolving the label.
-// It might be that the jump is a long jump.
-func (p *Program) computeSkipN(jump JumpIf, label Label) int {
-	dest := p.labels[label]
-	return int(dest[0]-jump.index) - 1
-}
-
-// To insert a new instruction into the instruction list, the furthest jump instruction within
-// a short jump is searched.
-// It is necessary to search a jump instruction to jump over the new inserted instruction
-// and do not disturb the program flow.
-func findInsertAfter(jumps []JumpIf, currentJump JumpIf) JumpIf {
-	insertAfter := currentJump
-	maxIndex := currentJump.index + 255
-	for _, jump := range jumps {
-		if jump.index < maxIndex {
-			insertAfter = jump
+// Computes the number of instructions to skip to reach the nearest destination of the label
+// that is located behind the jump. It might be that the jump is a long jump.
+func (p *Program) computeSkipN(jump JumpIf, label Label) (int, error) {
+	for _, dest := range p.labels[label] {
+		if dest > jump.index {
+			return int(dest-jump.index) - 1, nil
 		}
 	}
-	return insertAfter
+	return 0, fmt.Errorf("backward jumps are not supported")
 }
 
 // Calculate the index of the current instruction.
